@@ -1,0 +1,19 @@
+//go:build verif
+
+// Machine-checked contracts for package scheduler (comment-only; read by /verif/govc).
+
+package scheduler
+
+// C18: dropping a torrent deletes its file from the archive only while the dispatcher reports it
+// incomplete - a completed blob is never deleted by an idle timeout or a cancellation.
+//@ func state.removeTorrent
+//@   requires s != nil
+//@   modifies *
+//@   assert keeps_completed_blob: at storage.TorrentArchive.DeleteTorrent#0 :: !ctrl.dispatcher.done
+
+// C18: the preemption tick drops a torrent only if it has been idle for the seeder limit (no
+// piece served) or for the leecher limit (no piece received), measured on the scheduler's clock.
+//@ func preemptionTickEvent.apply
+//@   requires s != nil
+//@   modifies *
+//@   assert only_idle: at state.removeTorrent#0 :: (s.sched.clock.now - ctrl.dispatcher.obsRead >= s.sched.config.SeederTTI) || (s.sched.clock.now - ctrl.dispatcher.obsWrite >= s.sched.config.LeecherTTI)
